@@ -584,4 +584,57 @@ theorem totalOrder_ok (st : St) {n' : Nat} {ia : Array Nat} (hI : InvC st.vars s
         exact ih acc (fun j hj => hlt j (by simp [hj])) h1 h2
   exact key _ _ (fun i hi => List.mem_range.1 hi) rfl (by simp)
 
+/-! ### every entry of the order is a variable -/
+
+theorem dfs_bound (st : St) {n' : Nat} {ia : Array Nat} (hI : InvC st.vars st.cons n' ia) :
+    ∀ (fuel : Nat) (vis : Array Bool) (ord : List Nat) (v : Nat),
+      v < st.vars.size → (∀ x ∈ ord, x < st.vars.size) →
+      ∀ x ∈ (dfsVisit st fuel vis ord v).2.1, x < st.vars.size := by
+  intro fuel
+  induction fuel with
+  | zero => intro vis ord v _ ho; simpa [dfsVisit] using ho
+  | succ fuel ih =>
+    intro vis ord v hv ho
+    rw [dfsVisit_succ]
+    simp only
+    have key : ∀ (l : List Nat) (acc : Array Bool × List Nat × Bool),
+        (∀ ci ∈ l, ci ∈ (st.vars[v]!).outs) → (∀ x ∈ acc.2.1, x < st.vars.size) →
+        ∀ x ∈ (l.foldl (dfsStep st fuel) acc).2.1, x < st.vars.size := by
+      intro l
+      induction l with
+      | nil => intro acc _ h; exact h
+      | cons ci rest ihl =>
+        intro acc hmem h
+        rw [List.foldl_cons]
+        apply ihl _ (fun c hc => hmem c (by simp [hc]))
+        unfold dfsStep
+        split
+        · obtain ⟨hcilt, _⟩ := hI.outs_sound v ci (hmem ci (by simp))
+          exact ih _ _ _ (hI.r_lt ci hcilt) h
+        · exact h
+    rw [← Array.foldl_toList]
+    intro x hx
+    rcases List.mem_cons.1 hx with rfl | hx
+    · exact hv
+    · exact key _ (vis.set! v true, ord, true) (fun ci hc => by simpa using hc) ho x hx
+
+theorem totalOrder_bound (st : St) {n' : Nat} {ia : Array Nat} (hI : InvC st.vars st.cons n' ia) :
+    ∀ x ∈ (totalOrder st).1, x < st.vars.size := by
+  rw [totalOrder_eq]
+  simp only
+  have key : ∀ (l : List Nat) (acc : Array Bool × List Nat × Bool), (∀ i ∈ l, i < st.vars.size) →
+      (∀ x ∈ acc.2.1, x < st.vars.size) → ∀ x ∈ (l.foldl (topStep st) acc).2.1, x < st.vars.size := by
+    intro l
+    induction l with
+    | nil => intro acc _ h; exact h
+    | cons i rest ih =>
+      intro acc hlt h
+      rw [List.foldl_cons]
+      apply ih _ (fun j hj => hlt j (by simp [hj]))
+      unfold topStep
+      split
+      · exact dfs_bound st hI _ _ _ _ (hlt i (by simp)) h
+      · exact h
+  exact key _ _ (fun i hi => List.mem_range.1 hi) (fun _ h => by cases h)
+
 end AdaptaVerif.Lemmas.VpscStaticOrder
